@@ -35,6 +35,22 @@ def offsets_unaligned(ctx, size):
     return sorted({o for o in offs if 0 <= o <= PAGE - size})
 
 
+def complex_plan(ctx):
+    """interleaved complex loads/stores (shared with C16): memory element i = (re_i, im_i) <-> lane i of the real and imaginary registers"""
+    rng = ctx.rng
+    plan = []
+    for t, nb in (("f32", 4), ("f64", 8)):
+        for w in (16, 32, 64):
+            rows = [datarow(rng, nb, w, 1), datarow(rng, nb, w, 2)]
+            for off in offsets_unaligned(ctx, 2 * w)[:: ctx.q(2, 1)]:
+                plan.append("cst store_unaligned %s %d %s %s - %s" % (t, off, rows[0], rows[1], wrow(w)))
+                plan.append("cld load_unaligned %s %d %s - - %s" % (t, off, (rows[0] + rows[1])[: 4 * w].ljust(512, "0")[:512], wrow(w)))
+            for off in sorted({0, 2 * w, PAGE - 2 * w, PAGE - 4 * w, 2048}):
+                plan.append("cst store_aligned %s %d %s %s - %s" % (t, off, rows[0], rows[1], wrow(w)))
+                plan.append("cld load_aligned %s %d %s - - %s" % (t, off, (rows[0] + rows[1])[: 4 * w].ljust(512, "0")[:512], wrow(w)))
+    return plan
+
+
 def body(ctx):
     ctx.model("MemModel.tla", timeout=600)
     rng = ctx.rng
@@ -104,15 +120,7 @@ def body(ctx):
                         else:
                             xr = bytes(vf.pack_lanes([rng.choice([rng.randint(-2 ** 24, 2 ** 24), rng.randint(-2 ** (8 * nb - 1), 2 ** (8 * nb - 1) - 1), 0, -1]) for _ in range(n)], nb))
                         plan.append("ga scatter_cv:%s %s %d %s %s - %s" % (u, t, off, xr.ljust(64, b"\0").hex(), vf.hexrow(vf.pack_lanes(perm, nb)).ljust(128, "0"), wrow(w)))
-        for t, nb in (("f32", 4), ("f64", 8)):
-            for w in (16, 32, 64):
-                rows = [datarow(rng, nb, w, 1), datarow(rng, nb, w, 2)]
-                for off in offsets_unaligned(ctx, 2 * w)[:: ctx.q(2, 1)]:
-                    plan.append("cst store_unaligned %s %d %s %s - %s" % (t, off, rows[0], rows[1], wrow(w)))
-                    plan.append("cld load_unaligned %s %d %s - - %s" % (t, off, (rows[0] + rows[1])[: 4 * w].ljust(512, "0")[:512], wrow(w)))
-                for off in sorted({0, 2 * w, PAGE - 2 * w, PAGE - 4 * w, 2048}):
-                    plan.append("cst store_aligned %s %d %s %s - %s" % (t, off, rows[0], rows[1], wrow(w)))
-                    plan.append("cld load_aligned %s %d %s - - %s" % (t, off, (rows[0] + rows[1])[: 4 * w].ljust(512, "0")[:512], wrow(w)))
+        plan += complex_plan(ctx)
     ctx.log("plan: %d lines" % len(plan))
     events, plan = lanes.record(ctx, "mem", plan, "c04")
     for e in events:
